@@ -210,7 +210,8 @@ def lit_path():
     dot = st.lists(_ident(), min_size=1, max_size=4).map(lambda p: "." + ".".join(p))
     base = st.one_of(rel, dot)
     node = base.map(lambda p: p + ".")
-    return st.one_of(base, base, node).map(lambda p: ("path", p, p))
+    # an identifier spelled like none/true/yes/false/no (any case) is a bool/None by the documented order
+    return st.one_of(base, base, node).filter(lambda p: p.lower() not in BOOLWORDS).map(lambda p: ("path", p, p))
 
 
 def lit_latlon():
@@ -634,8 +635,8 @@ def check_roundtrip(items, through_init):
 # ------------------------------------------------------------------------------------------
 def plan(tier):
     if tier == "quick":
-        return [{"part": "script", "i": i, "n": 130} for i in range(6)] + [{"part": "rt", "i": 6 + i, "n": 400} for i in range(2)]
-    return [{"part": "script", "i": i, "n": 1400} for i in range(14)] + [{"part": "rt", "i": 14 + i, "n": 8000} for i in range(2)]
+        return [{"part": "script", "i": i, "n": 300} for i in range(6)] + [{"part": "rt", "i": 6 + i, "n": 800} for i in range(2)]
+    return [{"part": "script", "i": i, "n": 4000} for i in range(14)] + [{"part": "rt", "i": 14 + i, "n": 20000} for i in range(2)]
 
 
 def work(shard, seed, tier):
